@@ -461,6 +461,10 @@ func impliedFacts(cond ssa.Value, outcome bool, depth int) []branchFact {
 		if idx < 0 || p.Succs[0] == p.Succs[1] {
 			break
 		}
+		// only the tests of the short-circuit expression itself: their other exit jumps to the phi
+		if p.Succs[1-idx] != ph.Block() {
+			break
+		}
 		out = append(out, impliedFacts(pif.Cond, idx == 0, depth+1)...)
 		cur = p
 	}
